@@ -516,6 +516,60 @@ def enum_not_uint(root, rng):
 CATALOGUE: Dict[str, Callable] = {}
 
 
+def _out_of_scope(inner_kind: str, after_inner_use: bool, spelling: str, user_scope: str):
+    """A type nested in message Outer, referenced from a place where the unqualified name is NOT visible.
+    spelling: 'bare' (Inner: rejected), 'qualified' (Outer.Inner: accepted).
+    after_inner_use: the same bare name was resolved successfully inside Outer first (a resolution memo must not outlive the scope).
+    user_scope: 'file' (a later top-level message), 'sibling' (a message nested in another top-level message),
+                'importer' (the importing file uses the bare name of a type nested in a message of the imported file)."""
+    def fn(root, rng):
+        f = rng.choice(root.all_files()) if user_scope != "importer" else None
+        if user_scope == "importer":
+            cands = [(g, imp) for g in root.all_files() for imp in g.imports]
+            if not cands:
+                return None
+            user_file, imp = rng.choice(cands)
+            f = imp.file
+        else:
+            user_file = f
+        outer = Message(fresh("Kilo"))
+        if inner_kind == "enum":
+            inner = Enum(fresh("Lima"), 3, [(fresh("LIMA_A").upper(), 0), (fresh("LIMA_B").upper(), 5)])
+        else:
+            inner = Message(fresh("Lima"))
+            inner.add(Field("flag", Base("bool"), 1))
+        outer.add(inner)
+        n = 1
+        if after_inner_use:
+            outer.add(Field("inner_use", Ref(inner, forced_path=inner.name), n))
+            n += 1
+            if rng.random() < 0.5:
+                a = Arr(Ref(inner, forced_path=inner.name), 2)
+                outer.add(Field("inner_arr", a, n))
+                n += 1
+        outer.add(Field("pad", Base("uint", 3), n))
+        insert(f, outer, rng)
+        user = Message(fresh("Mike"))
+        path = inner.name if spelling == "bare" else f"{outer.name}.{inner.name}"
+        if user_scope == "importer" and spelling == "qualified":
+            path = f"{imp.bound_name}.{outer.name}.{inner.name}"
+        fl = user.add(Field("x", Ref(inner, forced_path=path), 1))
+        if user_scope == "sibling":
+            host = Message(fresh("November"))
+            host.add(user)
+            host.add(Field("u", Ref(user, forced_path=user.name), 1))
+            host.parent = user_file
+            user_file.items.insert(rng.randint(user_file.items.index(outer) + 1, len(user_file.items)), host)
+        elif user_scope == "importer":
+            insert(user_file, user, rng)
+        else:
+            user.parent = user_file
+            user_file.items.insert(rng.randint(user_file.items.index(outer) + 1, len(user_file.items)), user)
+        ok = spelling == "qualified"
+        return Injection(f"out-of-scope:{inner_kind}:{'after-inner-use' if after_inner_use else 'cold'}:{spelling}:{user_scope}", ok, user_file, [fl])
+    return fn
+
+
 def _reg(name: str, fn: Callable) -> None:
     CATALOGUE[name] = fn
 
@@ -569,6 +623,12 @@ _reg("option-type:module-bool", _option_type("py.module_name", False, "file"))
 _reg("use-before-declaration:type", use_before_declaration)
 _reg("use-before-declaration:constant", const_before_declaration)
 _reg("use-before-declaration:self", self_reference)
+for _ik in ("enum", "message"):
+    for _after in (False, True):
+        for _us in ("file", "sibling", "importer"):
+            _reg(f"out-of-scope:{_ik}:{'after-inner-use' if _after else 'cold'}:bare:{_us}", _out_of_scope(_ik, _after, "bare", _us))
+    _reg(f"out-of-scope:{_ik}:after-inner-use:qualified:file", _out_of_scope(_ik, True, "qualified", "file"))
+    _reg(f"out-of-scope:{_ik}:after-inner-use:qualified:importer", _out_of_scope(_ik, True, "qualified", "importer"))
 _reg("kind:constant-as-type", const_as_type)
 _reg("kind:type-as-capacity", type_as_capacity)
 _reg("kind:string-constant-as-capacity", _nonint_const("capacity", "four"))
